@@ -19,7 +19,8 @@
 (***************************************************************************)
 EXTENDS Naturals, FiniteSets, TLC
 
-CONSTANTS Paths, Contents, Size, Algs, MaxSteps
+CONSTANTS Paths, Contents, Size, Algs, MaxSteps, StorePaths
+\* StorePaths \subseteq Paths: the places of objects in an object store (not in the workspace directory)
 None == [none |-> TRUE]
 CodeVersion == 1
 
@@ -50,7 +51,7 @@ Delete(p) ==
     /\ UNCHANGED <<row, carried, used, clock, last>>
 
 Create(p, c) ==
-    /\ Tick /\ ~Exists(p)
+    /\ Tick /\ ~Exists(p) /\ p \notin StorePaths
     /\ LET f == [ino |-> clock, mt |-> clock, c |-> c]
        IN file' = [file EXCEPT ![p] = f] /\ used' = [used EXCEPT ![p] = @ \cup {Tok(f)}]
     /\ clock' = clock + 1
@@ -68,7 +69,7 @@ Saved(p, alg) == IF Hit(p, alg) THEN row[p] ELSE [tok |-> Tok(file[p]), h |-> fi
 
 \* hash_file(path, fs, alg, state) / _get_hashes(paths...) / build(): ask for the hashes of a set of existing files.
 \* Staging a directory and hashing an index of it look at every file of the directory, whatever the caller wanted to know
-Scope(P, api) == IF api \in {"build", "index_md5"} THEN {q \in Paths : Exists(q)} ELSE P
+Scope(P, api) == IF api \in {"build", "index_md5"} THEN {q \in Paths \ StorePaths : Exists(q)} ELSE P
 Query(P, alg, api) ==
     /\ Tick /\ P # {} /\ \A p \in P : Exists(p)
     /\ last' = [op |-> "Query", ans |-> [p \in P |-> Answer(p, alg)]]
@@ -98,6 +99,18 @@ QueryRace(p, alg, api, c, newIno, newMt, when) ==
     /\ act' = [op |-> "QueryRace", p |-> p, alg |-> alg, api |-> api, c |-> c, ino |-> newIno, mt |-> newMt, when |-> when]
     /\ UNCHANGED carried
 
+\* an object store of algorithm `salg` - sharing this state database - takes the content in as an object whose place is p:
+\* the library itself records a row for the object, under the STORE's algorithm.  (A legacy md5-dos2unix cache next to
+\* an md5 one, a sha256 store: a later lookup of the object under another algorithm - hash_file, migrate - is no hit.)
+StoreCreate(p, c, salg) ==
+    /\ Tick /\ ~Exists(p) /\ p \in StorePaths
+    /\ LET f == [ino |-> clock, mt |-> clock, c |-> c]
+       IN /\ file' = [file EXCEPT ![p] = f] /\ used' = [used EXCEPT ![p] = @ \cup {Tok(f)}]
+          /\ row' = [row EXCEPT ![p] = [tok |-> Tok(f), h |-> c, alg |-> salg, ver |-> CodeVersion]]
+    /\ clock' = clock + 1
+    /\ act' = [op |-> "StoreCreate", p |-> p, c |-> c, salg |-> salg]
+    /\ UNCHANGED <<carried, last>>
+
 \* a row that the code under test must never return for algorithm md5 although its token is current:
 \* recorded for another algorithm / by a newer format version / legacy unversioned (means md5-dos2unix)
 Inject(p, kind) ==
@@ -111,7 +124,7 @@ Inject(p, kind) ==
 \* index built and hashed now; later `update(new, old)` carries a hash over when the metadata is unchanged
 Snapshot ==
     /\ Tick
-    /\ carried' = [p \in Paths |-> IF Exists(p) THEN [tok |-> Tok(file[p]), h |-> file[p].c] ELSE None]
+    /\ carried' = [p \in Paths |-> IF Exists(p) /\ p \notin StorePaths THEN [tok |-> Tok(file[p]), h |-> file[p].c] ELSE None]
     /\ act' = [op |-> "Snapshot"]
     /\ UNCHANGED <<file, row, used, clock, last>>
 Carry ==
@@ -124,6 +137,7 @@ Next ==
     \/ \E p \in Paths, c \in Contents, i \in BOOLEAN, m \in BOOLEAN : Mutate(p, c, i, m)
     \/ \E p \in Paths : Delete(p)
     \/ \E p \in Paths, c \in Contents : Create(p, c)
+    \/ \E p \in StorePaths, c \in Contents, salg \in {"md5", "md5-dos2unix", "sha256"} : StoreCreate(p, c, salg)
     \/ \E P \in SUBSET Paths, alg \in Algs : Query(P, alg, "any")
     \/ \E p \in Paths, alg \in Algs, c \in Contents, i \in BOOLEAN, m \in BOOLEAN, w \in {"before-read", "after-read"} :
           QueryRace(p, alg, "any", c, i, m, w)
